@@ -135,12 +135,19 @@ def main(tier):
             for ml in mls:
                 q = r.choice(["'", '"'])
                 try:
-                    lines = list(str_to_lines(ml, q, s))
+                    if PC.TIMEOUTS[0] >= PC.MAX_TIMEOUTS:
+                        raise RuntimeError('skipped after calls that did not return')
+                    lines = PC.call_with_timeout(lambda: list(str_to_lines(ml, q, s)), 20)
                     res = 'L ' + ' '.join('[%s]' % ','.join(str(c) for c in (ln if isb else map(ord, ln))) for ln in lines)
                     # the helper's own contract
                     if (b'' if isb else '').join(lines) != s or any(len(ln) == 0 for ln in lines):
                         run.violation({'kind': 'oracle', 'detail': 'str_to_lines loses/duplicates characters or yields an '
                                        'empty piece', 's': repr(s), 'max_len': ml, 'quote': q, 'lines': repr(lines)})
+                except PC.PrintTimeout:
+                    PC.TIMEOUTS[0] += 1
+                    res = 'EXC PrintTimeout'
+                    run.violation({'kind': 'oracle', 'detail': 'str_to_lines(max_len=%d) did not return within 20 s' % ml,
+                                   's': repr(s), 'max_len': ml, 'quote': q})
                 except Exception as e:
                     res = 'EXC ' + type(e).__name__
                 reqs.append('(str_to_lines %d %d %d (%s) none)' % (isb, ml, ord(q), cps(s)))
